@@ -134,6 +134,8 @@ type c18cScn struct {
 	opts    func() []Option
 	threads [][]string // ops: Scrape, Add
 	varying bool       // the set of series legitimately differs between scrapes (instruments appear meanwhile)
+	e       int        // environment deviations (deadlines the collector may put on a scrape)
+	slowCb  bool       // an observable gauge whose callback takes time (a deadline can end while it runs)
 }
 
 func c18cBody(sc c18cScn, res *string) func(x *sched.Exec) {
@@ -162,6 +164,13 @@ func c18cBody(sc c18cScn, res *string) func(x *sched.Exec) {
 		mp := metric.NewMeterProvider(metric.WithReader(exp), metric.WithResource(rs))
 		ctr, _ := mp.Meter("m", otelmetric.WithInstrumentationVersion("v1")).Int64Counter("req")
 		ctr.Add(ctx, 1, otelmetric.WithAttributes(attribute.String("k", "a")))
+		if sc.slowCb {
+			_, _ = mp.Meter("m", otelmetric.WithInstrumentationVersion("v1")).Int64ObservableGauge("level", otelmetric.WithInt64Callback(func(_ context.Context, o otelmetric.Int64Observer) error {
+				sched.Yield("slow callback", &reg)
+				o.Observe(42)
+				return nil
+			}))
+		}
 		type out struct {
 			scrapes  [][]string
 			err      error
@@ -237,6 +246,17 @@ func c18cBody(sc c18cScn, res *string) func(x *sched.Exec) {
 				}
 			}
 		}
+		// target_info carries the resource as configured, in every scrape that has one and for good
+		// (a scrape cut short by a deadline of the collector's own making may be empty, not wrong)
+		for _, o := range outs {
+			for _, s := range append(append([][]string{}, o.scrapes...), final) {
+				for _, l := range s {
+					if strings.HasPrefix(l, "target_info{") && !strings.Contains(l, "=svc") {
+						x.Fail("C18|target-info-without-the-resource", "target_info exposed as %q; the resource has service.name=svc, env=prod", l)
+					}
+				}
+			}
+		}
 		for _, l := range final {
 			if strings.HasPrefix(l, "req_total{") && !strings.HasSuffix(l, " 3") && hasAdd(sc) {
 				x.Fail("C18|counter-value-under-concurrent-scrapes", "final scrape exposes %q; recorded 1 then +2", l)
@@ -261,14 +281,15 @@ func hasAdd(sc c18cScn) bool {
 func c18cScenarios() []c18cScn {
 	constLabels := func() []Option { return []Option{WithResourceAsConstantLabels(attribute.NewAllowKeysFilter("env"))} }
 	return []c18cScn{
-		{"K1-default-scrape-scrape-add", func() []Option { return nil }, [][]string{{"Scrape"}, {"Scrape"}, {"Add"}}, false},
-		{"K2-constlabels-scrape-scrape-add", constLabels, [][]string{{"Scrape"}, {"Scrape"}, {"Add"}}, false},
-		{"K3-constlabels-2scrapes-each", constLabels, [][]string{{"Scrape", "Scrape"}, {"Scrape"}}, false},
-		{"K5-scrape-vs-provider-shutdown", func() []Option { return nil }, [][]string{{"Scrape"}, {"Shutdown"}}, false},
-		{"K6-constlabels-scrape-scrape-shutdown", constLabels, [][]string{{"Scrape"}, {"Scrape"}, {"Shutdown"}}, false},
-		{"K7-first-scrapes-two-descriptions-opposite-scope-order", func() []Option { return []Option{WithProducer(&c18cProducer{})} }, [][]string{{"ScrapeH"}, {"ScrapeH"}}, false},
-		{"K4-noscope-notarget", func() []Option { return []Option{WithoutScopeInfo(), WithoutTargetInfo()} }, [][]string{{"Scrape"}, {"Scrape"}, {"Add"}}, false},
-		{"K8-scrape-from-before-the-family-existed-vs-first-scrape-that-sees-it", func() []Option { return []Option{WithProducer(&c18cLateProducer{})} }, [][]string{{"ScrapeH"}, {"ScrapeH"}}, true},
+		{"K1-default-scrape-scrape-add", func() []Option { return nil }, [][]string{{"Scrape"}, {"Scrape"}, {"Add"}}, false, 0, false},
+		{"K2-constlabels-scrape-scrape-add", constLabels, [][]string{{"Scrape"}, {"Scrape"}, {"Add"}}, false, 0, false},
+		{"K3-constlabels-2scrapes-each", constLabels, [][]string{{"Scrape", "Scrape"}, {"Scrape"}}, false, 0, false},
+		{"K5-scrape-vs-provider-shutdown", func() []Option { return nil }, [][]string{{"Scrape"}, {"Shutdown"}}, false, 0, false},
+		{"K6-constlabels-scrape-scrape-shutdown", constLabels, [][]string{{"Scrape"}, {"Scrape"}, {"Shutdown"}}, false, 0, false},
+		{"K7-first-scrapes-two-descriptions-opposite-scope-order", func() []Option { return []Option{WithProducer(&c18cProducer{})} }, [][]string{{"ScrapeH"}, {"ScrapeH"}}, false, 0, false},
+		{"K4-noscope-notarget", func() []Option { return []Option{WithoutScopeInfo(), WithoutTargetInfo()} }, [][]string{{"Scrape"}, {"Scrape"}, {"Add"}}, false, 0, false},
+		{"K8-scrape-from-before-the-family-existed-vs-first-scrape-that-sees-it", func() []Option { return []Option{WithProducer(&c18cLateProducer{})} }, [][]string{{"ScrapeH"}, {"ScrapeH"}}, true, 0, false},
+		{"K9-slow-callback-two-scrapes-in-a-row", func() []Option { return nil }, [][]string{{"Scrape", "Scrape"}}, true, 1, true},
 	}
 }
 
@@ -297,7 +318,7 @@ func c18cRun(t *testing.T, unit string, race bool) {
 			r.Bound("concurrent_max_preemptions", p)
 			r.Bound("race_build", race)
 			var res string
-			st := sched.Explore(r, sched.Config{Name: job, MaxP: p, MaxE: 0, MaxSteps: 6000, Body: c18cBody(s, &res), Outcome: func(*sched.Exec) string { return res }})
+			st := sched.Explore(r, sched.Config{Name: job, MaxP: p, MaxE: s.e, MaxSteps: 6000, Body: c18cBody(s, &res), Outcome: func(*sched.Exec) string { return res }})
 			if race {
 				r.Count("race_build_executions", st.Execs)
 			}
